@@ -89,6 +89,11 @@ def gen_cases(ctx) -> List[Dict[str, Any]]:
                 cases.append(c)
     for b in ("well_behaved", "ignore_sigterm", "flood"):
         cases.append({"behaviour": b, "exit": "normal", "moment": "in_flight", "env": {"LOG_LEVEL": "ERROR"}})
+    # a second, healthy client of the same process must neither be disturbed by the exit nor disturb the accounting
+    for b in (("well_behaved", "ignore_sigterm", "exit_at:2", "flood") if ctx.tier == "quick"
+              else ("well_behaved", "ignore_sigterm", "exit_at:2", "flood", "never_read", "close_stdout", "sigterm_slow:1.4")):
+        for e in exits:
+            cases.append({"behaviour": b, "exit": e, "moment": "in_flight", "companion": True})
     return cases
 
 
@@ -145,6 +150,19 @@ def judge(ctx, case: Dict[str, Any], o: Dict[str, Any], remeasure) -> None:
                               f"context was left (only reaped later by the loop's child watcher)", case, o)
         if not o.get("pids"):
             ctx.violation("no_child_spawned", "no process was spawned", case)
+    comp = o.get("companion")
+    if case.get("companion"):
+        ctx.count("companion_clients")
+        if not comp or "pid" not in comp or not str(comp.get("before", "ERR")).startswith("{"):
+            ctx.inconclusive_because(f"companion client could not be set up: {comp}")
+        else:
+            if comp.get("state_after") in (None, "Z") or str(comp.get("after", "ERR")).startswith("ERR"):
+                ctx.violation("other_client_disturbed", f"a second, healthy stdio client of the same process was disturbed "
+                              f"when this context was left: child state {comp.get('state_after')!r}, next request -> "
+                              f"{comp.get('after')!r}", case, o)
+            if comp.get("state_end") is not None:
+                ctx.violation("child_left_running", f"the companion's own child was in state {comp.get('state_end')!r} "
+                              f"after its context was left", case, o)
     # fds
     if o.get("fd_delta", 0) != 0:
         mech = "fd_leaked"
